@@ -389,10 +389,12 @@ def nthLine (op : String) : String :=
     match a.toInt?, b.toNat?, kv ab with
     | some n, some start, some v =>
       let o : NthOracle := { piA := fun _ => 0, nthA := fun _ => v, avgGap := avgGapF, isqrt := Nat.sqrt }
-      let w := 30000000
-      let lo := start - min start w
-      let hi := start + w
-      if hi ≤ 200000000000000 ∧ n.natAbs ≤ 400000 ∧ (v ≤ hi ∧ lo ≤ v ∨ v = 0 ∧ start ≤ w) then
+      -- window: everything between the estimate and start plus room for the walk
+      let slack := n.natAbs * 60 + 20000
+      let vc := if n < 0 then min v start else max v start
+      let lo := (min vc start) - min (min vc start) slack
+      let hi := (max vc start) + slack
+      if hi ≤ 200000000000000 ∧ n.natAbs ≤ 400000 ∧ hi - lo ≤ 60000000 then
         showNth (nthWithTable (segmentTable lo hi) lo hi (fun _ => 1024) o n start)
       else showNth (nthPrime driverEnv (fun _ => 1024) countFn o n start)
     | _, _, _ => "bad-op"
@@ -405,7 +407,7 @@ def nthLine (op : String) : String :=
           nthA := fun _ => if n > 0 then min umax (start + n.natAbs * 40 + 1000) else start - min start (n.natAbs * 40 + 1000)
           avgGap := avgGapF, isqrt := Nat.sqrt }
       let small := n.natAbs ≤ 20000 ∧ start ≤ 100000000000000
-      let w := 25000000
+      let w := n.natAbs * 100 + 30000
       let lo := start - min start w
       let hi := start + w
       if hi ≤ 200000000000000 ∧ n.natAbs ≤ 400000 then
